@@ -432,6 +432,15 @@ pub fn entry_type(i: usize) -> EntryType {
         11 => EntryType::new::<std::collections::BTreeMap<ty::a::X, Vec<ty::b::Y>>>(),
         12 => EntryType::new::<(ty::a::X, ty::b::X)>(),
         13 => EntryType::new::<fn(ty::a::X) -> ty::b::Y>(),
+        // type syntax other than a path
+        14 => EntryType::new::<&'static String>(),
+        15 => EntryType::new::<(String, i32)>(),
+        16 => EntryType::new::<[String; 2]>(),
+        17 => EntryType::new::<fn(String) -> Vec<u8>>(),
+        18 => EntryType::new::<Box<dyn core::fmt::Debug>>(),
+        19 => EntryType::new::<*const u8>(),
+        20 => EntryType::new::<Vec<String>>(),
+        21 => EntryType::new::<Option<&'static String>>(),
         _ => panic!("type menu index {i}"),
     }
 }
@@ -453,10 +462,18 @@ pub fn type_name(i: usize) -> &'static str {
         11 => n::<std::collections::BTreeMap<ty::a::X, Vec<ty::b::Y>>>(),
         12 => n::<(ty::a::X, ty::b::X)>(),
         13 => n::<fn(ty::a::X) -> ty::b::Y>(),
+        14 => n::<&'static String>(),
+        15 => n::<(String, i32)>(),
+        16 => n::<[String; 2]>(),
+        17 => n::<fn(String) -> Vec<u8>>(),
+        18 => n::<Box<dyn core::fmt::Debug>>(),
+        19 => n::<*const u8>(),
+        20 => n::<Vec<String>>(),
+        21 => n::<Option<&'static String>>(),
         _ => panic!("type menu index {i}"),
     }
 }
-pub const N_TYPES: usize = 14;
+pub const N_TYPES: usize = 22;
 
 fn entry_const(kind: u8, v: &str) -> EntryConst {
     match kind {
